@@ -45,7 +45,7 @@ func (cs *Case) String() string {
 	return s
 }
 
-// slotVar: do the letters 1, m, z of slot i denote activated variables?
+// slotVar: do the letters 1, m, z (h, o, y) of slot i carry derivatives?
 func (cs *Case) slotVar(i int) bool { return cs.Var && cs.Stor[i] != 'c' }
 
 func (cs *Case) nvars() int {
@@ -77,11 +77,25 @@ func (b *builder) elem(s ad.Scalar, c byte) {
 	if v := letterVal(c); v != 0 {
 		s.SetFloat64(v)
 	}
-	if isVar(c, b.varM) {
-		if err := s.(ad.MagicScalar).SetVariable(b.next, b.n, 2); err != nil {
+	if !b.varM {
+		return
+	}
+	k := b.next
+	b.next += ownVars(c, true)
+	switch c {
+	case 'z', '1', 'm':
+		if err := s.(ad.MagicScalar).SetVariable(k, b.n, 2); err != nil {
 			panic(err)
 		}
-		b.next++
+	case 'h': // x_k*x_k at 0
+		s.(ad.MagicScalar).Alloc(b.n, 2)
+		s.(ad.MagicScalar).SetHessian(k, k, 2)
+	case 'o': // x_k*x_(k+1) at (0,0)
+		s.(ad.MagicScalar).Alloc(b.n, 2)
+		s.(ad.MagicScalar).SetHessian(k, k+1, 1)
+		s.(ad.MagicScalar).SetHessian(k+1, k, 1)
+	case 'y': // zero with memory for the derivatives of order 2
+		s.(ad.MagicScalar).Alloc(b.n, 2)
 	}
 }
 
